@@ -221,7 +221,7 @@ func (r *rpcRun) handle(ctx rpc.Context, ch rpc.ServerChannel) (ref.R[[]byte], s
 	s := r.cs[id]
 	s.starts++
 	simrt.Logf("call%d handler start #%d", id, s.starts)
-	if s.starts > 1 {
+	if s.starts > 1 && !c.Probe {
 		r.fail("C04-handler-twice", "call %d reached the handler %d times", id, s.starts)
 	}
 	if got := call.Input().Bytes(2); !bytes.Equal(got, r.reqBytes(id)) {
